@@ -1,9 +1,9 @@
 package props
 
 import (
-	"regexp"
 	"fmt"
 	"go/types"
+	"regexp"
 	"strings"
 
 	"gmslverif/fw"
@@ -471,7 +471,24 @@ func checkComparators(c *fw.Ctx) {
 						okAll = false
 					}
 				}
-				c.Check(okAll, rule, "power sort key: a sender gets the creator level iff the version privileges creators and the sender is one of CreatorsFromCreateEvent(create)", c.P.Pos(fw.InstrPos(r.Ret)), "", "CreatorPowerLevel is returned under ["+r.Cond.String()+"]: the test is not membership of the sender in the create event's creator set (additional creators then sort by their power-levels entry)")
+				construct := "power sort key: a sender gets the creator level iff the version privileges creators and the sender is one of CreatorsFromCreateEvent(create)"
+				// the sender tested against what an unexported routine of the repository hands out (a
+				// memoised creator set, a set built elsewhere): what that routine returns is not read here
+				opaque := false
+				if !okAll {
+					for _, term := range r.Cond {
+						for _, x := range term {
+							if x.Pos && strings.Contains(x.Atom, ".SenderID(param:event)") && unexportedCallAtHead(x.Atom) && !strings.Contains(x.Atom, "gmsl.CreatorsFromCreateEvent(") {
+								opaque = true
+							}
+						}
+					}
+				}
+				if opaque {
+					c.Undecided(rule, construct, "the sender is tested against the result of an unexported routine under ["+r.Cond.String()+"]")
+					continue
+				}
+				c.Check(okAll, rule, construct, c.P.Pos(fw.InstrPos(r.Ret)), "", "CreatorPowerLevel is returned under ["+r.Cond.String()+"]: the test is not membership of the sender in the create event's creator set (additional creators then sort by their power-levels entry)")
 			}
 			c.Min(rule+" creator-level returns in the power sort key", n, 1)
 		}
@@ -890,4 +907,18 @@ func v1BlockFields(v ssa.Value, depth int, seen map[ssa.Value]bool, set map[stri
 	case *ssa.Parameter, *ssa.Extract, *ssa.Lookup, *ssa.Next:
 		*dynamic = true
 	}
+}
+
+// unexportedCallIn: a rendered call of an unexported function or method of the repository.
+var unexportedCallIn = regexp.MustCompile(`(\(\*?gmsl\.\w+\)\.|gmsl\.)[a-z_]\w*\(`)
+
+// unexportedCallAtHead: the atom is itself a call of an unexported routine of the repository, or a
+// library membership test (slices.Contains, a map lookup) of what such a routine returns.
+func unexportedCallAtHead(atom string) bool {
+	a := strings.TrimLeft(atom, "(!")
+	for _, pre := range []string{"slices.Contains(", "slices.Index(", "slices.ContainsFunc("} {
+		a = strings.TrimPrefix(a, pre)
+	}
+	loc := unexportedCallIn.FindStringIndex(a)
+	return loc != nil && loc[0] == 0
 }
